@@ -4,11 +4,13 @@ D="$(cd "$(dirname "$0")/.." && pwd)"; export VERIF_DIR="$D"
 LOG="${TRIAL_LOG:-/tmp/thorough-trial.log}"
 DL="${TRIAL_DEADLINE:-30}"
 ids=("$@"); [ ${#ids[@]} -eq 0 ] && ids=(C01 C02 C03 C04 C05 C06 C07 C08 C09 C10 C11 C12 C13 C14 C15 C16 C17 C18 C19 C20)
-for id in "${ids[@]}"; do
+for spec in "${ids[@]}"; do
+  # an id may carry a family filter: C11:PF:fork  ->  check C11 ... -only PF:fork
+  id="${spec%%:*}"; only=(); [ "$spec" != "$id" ] && only=(-only "${spec#*:}")
   t0=$(date +%s)
-  out=$(VERIF_BUILD_TAG=trial VERIF_EVIDENCE_DIR=/tmp/tt-ev VERIF_REPLAY_DIR=/tmp/tt-ev/replays "$D/check" "$id" --tier thorough -scenario-deadline "$DL" 2>&1); rc=$?
+  out=$(VERIF_BUILD_TAG=trial VERIF_EVIDENCE_DIR=/tmp/tt-ev VERIF_REPLAY_DIR=/tmp/tt-ev/replays "$D/check" "$id" --tier thorough -scenario-deadline "$DL" "${only[@]}" 2>&1); rc=$?
   t1=$(date +%s)
-  echo "TRIAL $id rc=$rc $((t1-t0))s :: $(echo "$out" | grep -E "VIOLATION|TOOL-ERROR|KNOWN-FINDING|thorough:" | head -6 | cut -c1-300 | tr '\n' ' ')" >> "$LOG"
+  echo "TRIAL $spec rc=$rc $((t1-t0))s :: $(echo "$out" | grep -E "VIOLATION|TOOL-ERROR|KNOWN-FINDING|thorough:" | head -6 | cut -c1-300 | tr '\n' ' ')" >> "$LOG"
 done
 rm -rf /tmp/tt-ev
 echo done >> "$LOG"
